@@ -6,6 +6,8 @@ import (
 	"fmt"
 	"go/token"
 	"go/types"
+	"os"
+	"regexp"
 	"sort"
 	"strings"
 
@@ -69,7 +71,8 @@ func (s *State) clone() *State {
 }
 
 type item struct {
-	text string
+	text  string
+	block int // top-frame basic block under which the assertion was generated (-1: global)
 }
 
 type Obl struct {
@@ -89,6 +92,7 @@ type Obl struct {
 	Model          string
 	Cover          bool // reachability cover query: expected SAT
 	NSplit         int
+	Block          int
 	Enc            *Enc
 	Relaxed        string
 	RelaxedBackend string
@@ -115,13 +119,18 @@ type Enc struct {
 	// view: a function may be proved in several views; each view assumes and proves only the untagged clauses and
 	// the clauses tagged with its name (keeps the VCs small). Safety obligations belong to the primary view "".
 	view string
+	// cone-of-influence filtering: assertions are tagged with the top-frame block that generated them; an obligation
+	// only sees the assertions of blocks that can reach its own block
+	curBlock int
+	topFn    *ssa.Function
+	anc      map[int]map[int]bool
 }
 
 func (e *Enc) inView(cl *Clause) bool { return cl.View == "" || cl.View == e.view }
 func (e *Enc) primary() bool          { return e.view == "" }
 
 func newEnc(p *Program, fn string) *Enc {
-	return &Enc{P: p, declared: map[string]bool{}, heapSort: map[string]string{}, heapType: map[string]types.Type{}, notes: map[string]bool{}, strLits: map[string]string{}, fnName: fn, oblNames: map[string]int{}, opaques: map[string]*opaqueInfo{}}
+	return &Enc{curBlock: -1, P: p, declared: map[string]bool{}, heapSort: map[string]string{}, heapType: map[string]types.Type{}, notes: map[string]bool{}, strLits: map[string]string{}, fnName: fn, oblNames: map[string]int{}, opaques: map[string]*opaqueInfo{}}
 }
 
 func (e *Enc) fresh(prefix, sort string) string {
@@ -151,7 +160,7 @@ func (e *Enc) assert(t string) {
 	if t == "" || t == "true" {
 		return
 	}
-	e.items = append(e.items, item{t})
+	e.items = append(e.items, item{t, e.curBlock})
 }
 
 func (e *Enc) assume(guard, t string) {
@@ -186,7 +195,7 @@ func (e *Enc) oblige(kind, name string, props []string, guard, cond string, pos 
 	if k := e.oblNames[full]; k > 1 {
 		full = fmt.Sprintf("%s#%d", full, k)
 	}
-	o := &Obl{Name: full, Kind: kind, Props: props, Fn: e.fnName, Guard: guard, Cond: cond, Prefix: len(e.items), NDecl: len(e.decls), Pos: pos, Note: note, NSplit: len(e.splitVars), Enc: e}
+	o := &Obl{Name: full, Kind: kind, Props: props, Fn: e.fnName, Guard: guard, Cond: cond, Prefix: len(e.items), NDecl: len(e.decls), Pos: pos, Note: note, NSplit: len(e.splitVars), Enc: e, Block: e.curBlock}
 	e.obls = append(e.obls, o)
 	// after checking, the condition may be assumed
 	e.assume(guard, cond)
@@ -207,7 +216,7 @@ func (e *Enc) cover(name string, props []string, guard string) {
 	if e.view != "" {
 		name += "@" + e.view
 	}
-	o := &Obl{Name: name, Kind: "cover", Props: props, Fn: e.fnName, Guard: guard, Cond: "false", Prefix: len(e.items), NDecl: len(e.decls), Cover: true, Enc: e}
+	o := &Obl{Name: name, Kind: "cover", Props: props, Fn: e.fnName, Guard: guard, Cond: "false", Prefix: len(e.items), NDecl: len(e.decls), Cover: true, Enc: e, Block: e.curBlock}
 	e.obls = append(e.obls, o)
 }
 
@@ -518,11 +527,26 @@ func (e *Enc) script(o *Obl) string {
 	for _, d := range e.P.globalDecls {
 		body.WriteString(d + "\n")
 	}
+	for _, d := range e.P.TT.zeroDecls {
+		body.WriteString(d + "\n")
+	}
 	for _, d := range e.decls[:o.NDecl] {
 		body.WriteString(d + "\n")
 	}
+	anc := e.ancestors(o.Block)
+	var cand []string
 	for _, it := range e.items[:o.Prefix] {
-		body.WriteString("(assert " + it.text + ")\n")
+		if it.block >= 0 && anc != nil && !anc[it.block] {
+			continue
+		}
+		cand = append(cand, it.text)
+	}
+	goal := and(o.Guard, not(o.Cond))
+	if o.Cover {
+		goal = o.Guard
+	}
+	for _, t := range relevantItems(cand, goal, o.Cover) {
+		body.WriteString("(assert " + t + ")\n")
 	}
 	if o.Cover {
 		body.WriteString("(assert " + o.Guard + ")\n")
@@ -547,5 +571,145 @@ func sortedNotes(m map[string]bool) []string {
 		out = append(out, k)
 	}
 	sort.Strings(out)
+	return out
+}
+
+// ancestors returns the set of top-frame blocks that can reach block b (including b), ignoring back edges.
+func (e *Enc) ancestors(b int) map[int]bool {
+	if b < 0 || e.topFn == nil || os.Getenv("RTV_NOCONE") != "" {
+		return nil
+	}
+	if e.anc == nil {
+		e.anc = map[int]map[int]bool{}
+	}
+	if a, ok := e.anc[b]; ok {
+		return a
+	}
+	a := map[int]bool{b: true}
+	stack := []*ssa.BasicBlock{e.topFn.Blocks[b]}
+	for len(stack) > 0 {
+		x := stack[len(stack)-1]
+		stack = stack[:len(stack)-1]
+		for _, p := range x.Preds {
+			if x.Dominates(p) { // back edge p -> x
+				continue
+			}
+			if !a[p.Index] {
+				a[p.Index] = true
+				stack = append(stack, p)
+			}
+		}
+	}
+	e.anc[b] = a
+	return a
+}
+
+var reIdent = regexp.MustCompile(`[A-Za-z_][A-Za-z0-9_!.$]*`)
+var reControl = regexp.MustCompile(`^(f[0-9]+_r[0-9]+|f[0-9]+_e[0-9]+_[0-9]+|f[0-9]+_disp|f[0-9]+_dispo|f[0-9]+_ret|alloc[A-Za-z0-9_]*|ref_[A-Za-z0-9_]*|search_g|ap_fits|ap_n|ap_cap)(![0-9]+)?$`)
+
+var smtWords = map[string]bool{"assert": true, "forall": true, "exists": true, "and": true, "or": true, "not": true, "ite": true, "let": true,
+	"select": true, "store": true, "true": true, "false": true, "Int": true, "Bool": true, "Array": true, "as": true, "const": true, "mod": true, "div": true,
+	"pattern": true, "Str": true, "Slice": true, "Iface": true, "base": true, "slen": true, "sat": true, "slt": true, "scat": true, "ssub": true, "alim": true,
+	"str_empty": true, "wf": true, "mk": true, "s": true, "i": true, "bor": true, "band": true, "bxor": true, "is": true, "exist": true, "notexist": true,
+	"r": true, "k": true, "wr__": true, "slice": true, "iface": true, "ref": true, "off": true, "len": true, "cap": true, "tag": true}
+
+func linkSyms(t string) []string {
+	var out []string
+	for _, id := range reIdent.FindAllString(t, -1) {
+		if smtWords[id] || reControl.MatchString(id) {
+			continue
+		}
+		if strings.Contains(id, "!q") || strings.HasPrefix(id, "mk_") || strings.HasPrefix(id, "S_") || strings.HasPrefix(id, "mk-") {
+			continue // bound variables, datatype constructors / selectors
+		}
+		out = append(out, id)
+	}
+	return out
+}
+
+func ctlSyms(t string) []string {
+	var out []string
+	for _, id := range reIdent.FindAllString(t, -1) {
+		if reControl.MatchString(id) {
+			out = append(out, id)
+		}
+	}
+	return out
+}
+
+// relevantItems keeps the assertions connected to the goal through shared symbols. Data symbols (heaps, SSA values,
+// spec functions) link in both directions; control symbols (reachability and allocation constants) only pull in their
+// own definitions "(= c term)". Dropping assumptions is always sound; it keeps the queries small.
+func relevantItems(items []string, goal string, cover bool) []string {
+	if os.Getenv("RTV_NOREL") != "" || cover {
+		return items
+	}
+	rel := map[string]bool{}
+	relCtl := map[string]bool{}
+	for _, s := range linkSyms(goal) {
+		rel[s] = true
+	}
+	for _, s := range ctlSyms(goal) {
+		relCtl[s] = true
+	}
+	syms := make([][]string, len(items))
+	ctls := make([][]string, len(items))
+	defines := make([]string, len(items))
+	keep := make([]bool, len(items))
+	for i, t := range items {
+		syms[i] = linkSyms(t)
+		ctls[i] = ctlSyms(t)
+		if strings.HasPrefix(t, "(= ") {
+			f := strings.Fields(t[3:])
+			if len(f) > 0 && reControl.MatchString(f[0]) {
+				defines[i] = f[0]
+			}
+		}
+	}
+	for changed := true; changed; {
+		changed = false
+		for i := range items {
+			if keep[i] {
+				continue
+			}
+			hit := defines[i] != "" && relCtl[defines[i]]
+			if !hit && len(syms[i]) == 0 {
+				// only control symbols: relevant if it mentions a relevant control symbol
+				for _, c := range ctls[i] {
+					if relCtl[c] {
+						hit = true
+						break
+					}
+				}
+				if len(ctls[i]) == 0 {
+					hit = true
+				}
+			}
+			if !hit {
+				for _, s := range syms[i] {
+					if rel[s] {
+						hit = true
+						break
+					}
+				}
+			}
+			if hit {
+				keep[i] = true
+				changed = true
+				for _, s := range syms[i] {
+					rel[s] = true
+				}
+				for _, c := range ctls[i] {
+					relCtl[c] = true
+				}
+			}
+		}
+	}
+	var out []string
+	for i, t := range items {
+		if keep[i] {
+			out = append(out, t)
+		}
+	}
 	return out
 }
